@@ -968,6 +968,17 @@ def m_iter_position(interp, args, info):
         i += 1
 
 
+@model("std::iter::Iterator::rposition", "<std::slice::Iter<'a, T> as std::iter::Iterator>::rposition")
+def m_iter_rposition(interp, args, info):
+    c, path, it = _by_ref_iter(interp, args[0])
+    xs = drain(interp, it)
+    interp.write(c, path, IterV("vec", ListV(())))
+    for i in range(len(xs) - 1, -1, -1):
+        if interp.call_value(args[1], [xs[i]]):
+            return some(i)
+    return NONE
+
+
 @model("std::iter::Iterator::last")
 def m_iter_last(interp, args, info):
     xs = drain(interp, make_iter(interp, args[0]))
